@@ -70,6 +70,30 @@ type VerifZooBytes struct {
 	A7 [7]byte
 }
 
+// kinds the reflection codec does not support: Unmarshal answers a field error when it reaches the field;
+// Marshal panics for arrays / slices / pointers of other element types and silently skips any other kind.
+type VerifZooBadArray struct {
+	U uint32 `sshtype:"206"`
+	A [2]uint16
+}
+
+type VerifZooBadSlice struct {
+	S string `sshtype:"207"`
+	L []int
+}
+
+type VerifZooBadPtr struct {
+	B bool `sshtype:"208"`
+	P *int
+	U uint8
+}
+
+type VerifZooBadKind struct {
+	U uint32 `sshtype:"209"`
+	X int32
+	S string
+}
+
 // VerifNew returns a pointer to a fresh value of the named message struct (nil if unknown).
 func VerifNew(name string) interface{} {
 	switch name {
@@ -165,6 +189,14 @@ func VerifNew(name string) interface{} {
 		return new(VerifZooNames)
 	case "VerifZooBytes":
 		return new(VerifZooBytes)
+	case "VerifZooBadArray":
+		return new(VerifZooBadArray)
+	case "VerifZooBadSlice":
+		return new(VerifZooBadSlice)
+	case "VerifZooBadPtr":
+		return new(VerifZooBadPtr)
+	case "VerifZooBadKind":
+		return new(VerifZooBadKind)
 	}
 	return nil
 }
